@@ -171,8 +171,10 @@ def direct_oracles(ctx, s, labels, inst, desc, stream, found):
     return {'lit': lit, 'rep': rep, 'exc': exc_name, 'dv': dv, 'result': r, 'in_domain': not te and not dv, 'te': te}
 
 
-def drift_note(ctx):
-    """Informational: which modelled functions changed (normalised ast digest) since the model was written."""
+def drift_check(ctx):
+    """Which modelled methods changed (normalised ast digest) since the hand model was written against them.
+    A changed digest of a modelled method is a BROKEN TIE (the hand model may be stale): after the search it
+    is reported as a violation, with found_input=False when the search found nothing."""
     import re
     try:
         with open(os.path.join(vlib.COQ, 'Gen', 'SettingsTables.v')) as f:
@@ -184,10 +186,10 @@ def drift_note(ctx):
         changed = sorted(k for k in set(now) | set(old) if now.get(k) != old.get(k))
         ctx.cov['source_digests'] = now
         if changed:
-            ctx.notes.append('model drift: the ast of %s differs from the version the hand model was written against' % changed)
-            ctx.log('model drift (informational): %s' % changed)
+            ctx.log('model drift: modelled methods changed: %s' % changed)
+        return changed
     except Exception as e:  # noqa
-        ctx.notes.append('drift note unavailable: %r' % (e,))
+        return ['digest comparison unavailable: %r' % (e,)]
 
 
 def run(ctx):
@@ -198,7 +200,7 @@ def run(ctx):
     ctx.log('translator: %s' % msg)
     if not ok:
         tie_broken = msg
-    drift_note(ctx)
+    drifted = drift_check(ctx)
     res = vlib.proof_stage(ctx, 'Props/C19.v', model_targets=MODEL_TARGETS)
     ctx.log('proof stage ok=%s failing=%s' % (res['ok'], res['failing']))
     ctx.cov['trusted_base'] = [
@@ -226,6 +228,9 @@ def run(ctx):
                     d = json.load(f)
                 cases.append((M.rebuild(d['settings']), ['corpus:' + fn]))
     cases.append(G.gen_settings(rng, 0))
+    probes = G.probe_cases()
+    cases += probes
+    n_cases += len(probes)
     while len(cases) < n_cases:
         cases.append(G.gen_settings(rng))
     outs = []
@@ -284,12 +289,17 @@ def run(ctx):
     # ---------------------------------------------------------------- second sentence: live handshakes
     try:
         import c19_pairs
-        c19_pairs.run_pairs(ctx, found, res['model_ok'] and tie_broken is None)
+        c19_pairs.run_pairs(ctx, found, res['model_ok'])
     except ImportError:
         ctx.notes.append('handshake half not run (c19_pairs missing)')
     ctx.cov['rule'] = ('objects = HandshakeSettings() after 0-6 single-dimension changes (restrict/reorder/empty/unknown/extra/'
                        'alias two attributes/ill-typed element/boundary ints/versions/flags/tickets/PSK/DH/vhosts/callbacks/DC) '
                        'plus a fixed wrong-type catalogue; distinct = (changed dimensions, outcome, outside-domain?, representable?)')
+    if drifted:
+        msg = ('the ast of the modelled method(s) %s of tlslite/handshakesettings.py differs from the version the hand '
+               'model Model/C19_Settings.v was written against (harness/c19_digests.json): the tie is broken until the '
+               'model is re-synchronised' % drifted)
+        tie_broken = tie_broken or msg
     if tie_broken and not found:
         V(ctx, found, 'tie-broken', tie_broken, {'correspondence': 'Model/C19_Settings.v vs tlslite/handshakesettings.py',
                                                   'detail': tie_broken}, found_input=False)
